@@ -5,6 +5,7 @@ package tracer
 import (
 	"context"
 	"errors"
+	"runtime"
 	"time"
 )
 
@@ -98,10 +99,21 @@ func vStep() {
 }
 
 // vOnBlock: a waiter is blocked; the other operations of the script go on, and when none is left the contexts end.
+//
+// A waiter whose slot has just been completed is only *runnable*: the goroutine that completed it may go on with
+// further operations (Clear, a new Init, ...) before the woken waiter actually runs. yield#i says whether the
+// waiters get to run after operation i; an Await is always such a point (natively the script sleeps there).
 func vOnBlock() {
 	s := vS
 	if s.next < s.n {
-		vStep()
+		for {
+			i := s.next
+			isAwait := vIntAt("op", i, vMaxOps, 0, 3) == 3
+			vStep()
+			if s.next >= s.n || isAwait || vBoolAt("yield", i, vMaxOps) {
+				break
+			}
+		}
 		return
 	}
 	vCancelAll()
@@ -120,8 +132,16 @@ func vCancelAll() {
 
 func h16a(K int) {
 	vS = &vSched{t: &Tracer{}, n: K}
+	if vNative() {
+		// one processor: a woken waiter runs only when the script sleeps, which is what yield#i decides
+		defer runtime.GOMAXPROCS(runtime.GOMAXPROCS(1))
+	}
 	for vS.next < vS.n {
+		i := vS.next
 		vStep()
+		if vNative() && vBoolAt("yield", i, vMaxOps) {
+			time.Sleep(5 * time.Millisecond)
+		}
 	}
 	if vNative() {
 		vCancelAll()
